@@ -10,3 +10,10 @@ open LhasaV.Props.C01
 #print axioms ring_literal
 #print axioms lhark_length_code_roundtrip
 #print axioms distance_code_roundtrip
+#print axioms block_header_roundtrip
+#print axioms lhnew_decode_serialise
+#print axioms lh5_decode_serialise
+#print axioms lh6_decode_serialise
+#print axioms lh7_decode_serialise
+#print axioms lhx_decode_serialise
+#print axioms lk7_decode_serialise
